@@ -17,6 +17,8 @@ def _key(a):
     if isinstance(a, Term):
         return ("T", a.uid)
     if isinstance(a, tuple):
+        if type(a) is not tuple:
+            return ("t:" + getattr(a, "_cls_qual", type(a).__name__),) + tuple(_key(x) for x in a)
         return ("t",) + tuple(_key(x) for x in a)
     if isinstance(a, (bool, int, float, str, bytes, type(None))):
         return (type(a).__name__, a)
